@@ -60,12 +60,14 @@ CLAIMED["C10"] = dict(technique="reader/constructor census of Range + call-graph
 CLAIMED["C11"] = dict(technique="index chaining over SSA phis (tiling of the input) + provenance of span offsets + SGR tables and extended-colour automaton extracted from the SSA + byte-class partitions of the scanner by constant folding compared with the documented regular expression + result-use/state-carry census",
   text="Decides seven structural necessary conditions of --ansi stripping/colouring: extractColor tiles its input around the ranges the scanner reports (nothing between sequences dropped, duplicated or re-read; plain input returned as is); span offsets count characters of exactly the written pieces; SGR set/reset attribute table and basic colour ranges are consistent; the 38/48;5 and 38/48;2 automaton combines its parameters in order; every byte class the scanner branches on equals the class of the documented regular expression; line processors use the stripped text/spans and carry the returned state. Does not decide equivalence of the scanner with the regular expression on all strings (length guards, UTF-8 widths, backtracking) nor span well-formedness.",
   note="Byte classes are obtained by folding the SSA of the scanner over the 256 values of one byte read (no code is executed); the documented regex is held as five alternatives in the checker.")
+CLAIMED["C15"] = dict(technique="cache-key completeness from the path condition of the no-repaint return + request/consumer registry and printer reachability per switch case + must-pass-through (flush, repaint after erase) + dominance (cache reset before printing) + provenance and cross-expression agreement of marker/pointer inputs",
+  text="Decides five structural necessary conditions of display fidelity: the incremental-redraw row cache compares every recorded drawing input before skipping a row; every request kind has a consumer and each redraw request reaches its printer, printAll/fullRedraw repaint all regions; every non-exiting render pass ends with flush(); the row cache is renewed with the geometry before anything is printed and every screen erasure is followed by a full repaint or a request for one; the marker flag is the selection membership of the row's own item and the pointer test uses the index that fetched the item. Does not decide what is drawn (layout arithmetic, truncation/ellipsis/width, wrap bookkeeping, cursor tracking in the renderer).",
+  note="The three independently seeded C15 changes are all geometry/value-level and are not detected; recorded in seeded/C15*3 and DESIGN.md.")
 NA = {
 }
 ALL = ["C%02d" % i for i in range(1, 21)]
 PENDING_REASON = "check not built yet in this revision of /verif (see DESIGN.md section 0 for the planned structural clauses); nothing is claimed for it here"
 FIXED_NA = {
- "C15": "relation between the whole runtime state and the emitted bytes for every history and geometry with an incremental-redraw cache; a mutate-implies-redraw lint needs more exceptions than rules (DESIGN.md C15)",
 }
 def main():
     checks = []
